@@ -44,3 +44,11 @@ Definition c05_oracle (c out : sexp) : sexp :=
       forallb (fun qa => let '(c, s, e) := fst qa in
                          sexp_eqb (snd qa) (sRes sBlocks (Ok (scan secs c s e))))
               (combine qs answers)).
+
+(* entry 0: model output; entry 1: oracle on (case, implementation output) *)
+Definition dispatch (k : Z) (arg : sexp) : sexp :=
+  match k with
+  | 0 => c05_model arg
+  | 1 => c05_oracle (nthS 0 arg) (nthS 1 arg)
+  | _ => L [A (-1)%Z]
+  end%Z.
